@@ -831,19 +831,32 @@ def main(ctx):
     # interleaved: the per-object map of the second set and the C++ index must not leak between objects
     from mc.worlds import object_world
     MK = {"d4/all": (4, "all"), "d8/dups": (8, "dups"), "d10/polar": (10, "polar"), "d8/all": (8, "all")}
-    MOPS = [("scrambled", 0.015, 2), ("polar", 1.5, 0), ("dups", 0.0, 0), ("seam", 0.5, 1)]
+    MOPS = [("scrambled", 0.015, 2), ("polar", 1.5, 0), ("dups", 0.0, 0), ("seam", 0.5, 1), ("scribble",)]
+
+    class Held(object):
+        """a Matcher together with the caller's own coordinate arrays it was built from"""
 
     def m_new(kind):
         depth, s2 = MK[kind]
-        ra2, dec2 = coords(subset(s2, gen))
-        return htm.Matcher(depth, ra2, dec2)
+        h = Held()
+        h.ra2, h.dec2 = coords(subset(s2, gen))
+        h.M = htm.Matcher(depth, h.ra2, h.dec2)
+        return h
 
-    def m_do(M, kind, op):
+    def m_do(h, kind, op):
+        if op[0] == "scribble":
+            # the caller reuses ITS arrays after the matcher was built (a matcher is built from the positions
+            # it was given, not from whatever the caller's buffers hold later)
+            h.ra2[:] = 0.0
+            h.dec2[:] = 0.0
+            return []
         s1, r, mm = op
         ra1, dec1 = coords(subset(s1, gen))
-        return [np.asarray(a) for a in M.match(ra1, dec1, r, maxmatch=mm)]
+        return [np.asarray(a) for a in h.M.match(ra1, dec1, r, maxmatch=mm)]
 
     def m_check(kind, op, res):
+        if op[0] == "scribble":
+            return None
         s1, r, mm = op
         p1, p2 = subset(s1, gen), subset(MK[kind][1], gen)
         bad = verify(tuple(res), Truth(p1, p2, np.full(len(p1), r)), mm)
@@ -855,7 +868,7 @@ def main(ctx):
         return [hm]
 
     object_world(ctx, "several-matchers", list(MK), m_new, MOPS, m_do, m_modules, depth=ctx.pick(3, 4),
-                 check=m_check, nodedup_depth=ctx.pick(3, 4), state=lambda M: (M.get_depth(), getattr(M, "__dict__", {})))
+                 check=m_check, nodedup_depth=ctx.pick(3, 4), state=lambda h: (h.M.get_depth(), getattr(h.M, "__dict__", {}), h.ra2, h.dec2))
 
 
 class _Fail(Exception):
